@@ -19,7 +19,7 @@ def _gatt_builder(t, chk):
 
     # 1. driver object: independent of the repo
     drv_src = _os.path.join(root, 'engines/gatt/gatt_driver.cpp')
-    dkey = _hashlib.sha256((chk.file_hash([drv_src] + chk.lib_files()) + ' '.join(flags)).encode()).hexdigest()[:16]
+    dkey = _hashlib.sha256((chk.file_hash([drv_src] + [_os.path.join(root, 'lib', f) for f in ('att_model.hpp', 'gatt_if.hpp', 'verif.hpp', 'prelude.hpp')]) + ' '.join(flags)).encode()).hexdigest()[:16]
     ddir = _os.path.join(bdir, 'norepo-gattdriver-' + dkey)
     dobj = _os.path.join(ddir, 'driver.o')
     if not _os.path.exists(dobj):
